@@ -35,12 +35,18 @@ type Feeder struct {
 	Consumed []string // lines handed out since the last Reset
 	Limit    int
 	EOF      bool // when set, an empty queue yields io.EOF instead of Filler
+	pending  string
 }
 
 func (f *Feeder) Push(lines ...string) { f.queue = append(f.queue, lines...) }
-func (f *Feeder) Reset()               { f.queue, f.Consumed = nil, nil }
+func (f *Feeder) Reset()               { f.queue, f.Consumed, f.pending = nil, nil, "" }
 
 func (f *Feeder) Read(p []byte) (int, error) {
+	if f.pending != "" { // the rest of a line longer than the reader's buffer
+		n := copy(p, f.pending)
+		f.pending = f.pending[n:]
+		return n, nil
+	}
 	var l string
 	if len(f.queue) > 0 {
 		l, f.queue = f.queue[0], f.queue[1:]
@@ -54,10 +60,9 @@ func (f *Feeder) Read(p []byte) (int, error) {
 		panic("uichk: runaway input consumption (more than the per-command line limit)")
 	}
 	l += "\n"
-	if len(l) > len(p) {
-		l = l[:len(p)-1] + "\n"
-	}
-	return copy(p, l), nil
+	n := copy(p, l)
+	f.pending = l[n:]
+	return n, nil
 }
 
 // Capture redirects os.Stdout into a file and returns what was written.
